@@ -4,7 +4,8 @@
    recording channel).  [reachable cfg s]: s is the state after some list of operations
    (any length: SwitchTo, UpdateClientConnState with a switch config, reports, NewSubConn,
    sub-channel states, RemoveSubConn, ResolverError, ExitIdle, ResolveNow, UpdateAddresses,
-   Close) from the initial state, with stub behaviours cfg. *)
+   Close, and NewSubConn with a report of another/the same policy arriving - and the swap
+   it causes completing - while the call is inside the channel) from the initial state, with stub behaviours cfg. *)
 From Coq Require Import List ZArith Bool Arith.
 From VLib Require Import Codec.
 From VModel Require Import GSwitch.
@@ -71,6 +72,19 @@ Theorem C33_subconns_shut : forall cfg s id sc, reachable cfg s ->
 Proof. exact subconns_shut. Qed.
 Print Assumptions C33_subconns_shut.
 
+(* ... also the sub-channel whose creation is in flight when the policy is swapped out: if
+   the report v of policy j closes policy id (id is in the set the property prescribes to
+   close) while id's NewSubConn is inside the channel, NewSubConn shuts the new sub-channel
+   down itself and returns an error; it is not registered with the closed policy. *)
+Theorem C33_inflight_subconn_shut : forall cfg s id j v, reachable cfg s -> live s id = true ->
+  In id (snd (spec_report s j v)) ->
+  let r := newsc_during s id j v in
+  exists sc, In (evN sc) (snd r) /\ In (evS sc) (snd r) /\ In [11; 0; -1] (snd r) /\
+             sc_shut (fst r) sc = true /\ sc_owner (fst r) sc = id /\
+             k_subs (getkid (fst r) id) = k_subs (getkid s id).
+Proof. exact inflight_shutdown. Qed.
+Print Assumptions C33_inflight_subconn_shut.
+
 (* close: afterwards there is no policy (so, by C33_isolation, nothing is forwarded) and
    SwitchTo fails without effect *)
 Theorem C33_close : forall cfg s, closed (fst (step cfg s [5])) = true.
@@ -96,5 +110,6 @@ Example C33_witness :
   cur s = Some 0%nat /\ pend s = Some 1%nat /\ chan s = Some (READY, 0) /\
   snd (step [] s [2; 1; 2]) = [[1; 2; 1]; [3; 0]; [14; 0]; [0]] /\
   snd (step [] s [2; 0; 3]) = [[1; 1; 1]; [3; 0]; [14; 0]; [0]] /\
-  snd (step [] (fst (step [] s [2; 1; 2])) [2; 0; 2]) = [[0]].
+  snd (step [] (fst (step [] s [2; 1; 2])) [2; 0; 2]) = [[0]] /\
+  snd (step [] s [12; 0; 1; 2]) = [[2; 1]; [1; 2; 1]; [3; 0]; [14; 0]; [14; 1]; [11; 0; -1]; [0]].
 Proof. vm_compute. repeat split. Qed.
